@@ -420,8 +420,15 @@ def rand_v3_peer(rng, auth=None, priv=None, discover=False, kt=None):
     """a v3 identity with boundary-biased field widths (they move the auth-parameter offset)"""
     auth = rng.choice([0, 1, 2]) if auth is None else auth
     priv = (rng.choice([0, 1, 2]) if auth else 0) if priv is None else priv
-    eng = bytes(rng.getrandbits(8) for _ in range(rng.choice([5, 5, 9, 11, 12, 17, 31, 32])))
+    eng = bytes(rng.getrandbits(8) for _ in range(rng.choice([5, 5, 9, 11, 12, 17, 31, 32, 32, 33, 40, 64])))
+    r = rng.random()
+    if r < 0.12:
+        # engine ids as deployed: enterprise prefix + zero padding (runs of 11..20 zero octets), or all zeros
+        eng = rng.choice([bytes.fromhex("80001f8805") + bytes(rng.choice([11, 12, 14, 20])) + b"\x17",
+                          bytes(rng.choice([12, 13, 17, 24])), bytes.fromhex("8000000001") + bytes(12)])
     user = "".join(rng.choice("abcXYZ09_-") for _ in range(rng.choice([0, 1, 8, 16, 31, 32])))
+    if rng.random() < 0.04:
+        user = "\x00" * rng.choice([12, 13, 16])
     kts = ["password", "master", "localized"]
     akt = kt or rng.choice(kts)
     pkt = kt or rng.choice(kts)
